@@ -428,3 +428,7 @@ Fixpoint pseq_ok (calls : list pcall) (n : netst) : bool :=
       outcome_eqb o (pc_obs_outcome c) && Bool.eqb (n_conv n') (pc_obs_conv c) &&
       tables_eqb (n_tables n') (pc_obs_tables c) && pseq_ok r n'
   end.
+
+(* a sequence with the net state it starts from (fresh net, or the state observed after a call the
+   model does not cover, e.g. an exception escaping from inside a solve function) *)
+Definition nseq_ok (x : netst * list pcall) : bool := pseq_ok (snd x) (fst x).
